@@ -10,10 +10,7 @@ package main
 // R3 aggregation over members (full range; + from 0, min from +Inf).
 
 import (
-	"fmt"
-	"go/ast"
 	"go/constant"
-	"go/token"
 	"go/types"
 	"math/big"
 	"sort"
@@ -22,373 +19,21 @@ import (
 
 func init() { register("C03", false, checkC03) }
 
-type c03 struct {
-	c          *Ctx
-	ptT        types.Type
-	summ       map[*types.Func]parity
-	busy       map[*types.Func]bool
-	summ2      map[sumKey]parity
-	busy2      map[sumKey]bool
-	assume     map[sumKey]parity
-	usedAssume map[sumKey]bool
-}
-
 func checkC03(c *Ctx) {
-	c.Rule("C03.R1", "every fold over consecutive vertices visits the right pair set: shoelace sums the full cycle (chain 0..len-2 plus a closing term that is the loop's own summand at (last, first)) behind a short-ring guard; Length/Distance/centroid loops the open chain 0..len-2")
-	c.Rule("C03.R2", "orientation parity: Area results are even (unchanged by reversing rings); Polygon.Centroid/op.Centroid coordinates are even under reversal of all rings; MultiPolygon.Centroid coordinates are even under reversal of any single ring")
-	c.Rule("C03.R3", "MultiPolygon.Area, MultiLineString.Length/Distance fold every member (full range, no skip); Length adds from 0, Distance takes min from +Inf")
+	c.Rule("C03.R1", "model evaluation with symbolic coordinates: Polygon.Area (geom) equals, as a polynomial identity in the vertex coordinates, the shoelace area of the shells minus the holes for a triangle, a pentagon and a shell with one and two holes under every per-ring reversal, start vertex and closed/unclosed spelling; op.Area the same for holes wound against their shell and all rings reversed together; LineString.Length / op.Length equal the sum of segment lengths and LineString.Distance the least point-to-segment distance over all consecutive vertex pairs (comparisons between computed values follow a stated reference figure)")
+	c.Rule("C03.R2", "model evaluation: Polygon.Centroid and op.Centroid of closed rings equal, as rational functions of the coordinates, the area-weighted mean of the ring centroids for every start vertex and with all rings reversed together; MultiPolygon.Centroid (one member with a hole, two members with holes) equals the mean weighted by |area| with holes negative under reversal of any single ring")
+	c.Rule("C03.R3", "model evaluation: MultiPolygon.Area and op.Area of a multi-polygon equal the sum of the members' areas whatever the winding of each member; MultiLineString.Length / op.Length the sum over all lines; MultiLineString.Distance the least distance over all lines in either order")
 	c.Rule("C03.R5", "axis discipline of the coordinate predicates the measures rely on (hole detection by box and point-in-ring tests, on-segment pre-tests): no comparison relates an X ordinate to a Y ordinate")
 	c.Rule("C03.R4", "point-to-segment distance: at the foot point S + b·(E−S) the projection parameter satisfies 0 ≤ b ≤ 1 on every path (otherwise the end points are returned), and the division producing b has a non-zero divisor (zero-length segments cannot yield NaN)")
-	a := &c03{c: c, ptT: c.P.NamedType("geom", "Point"), summ: map[*types.Func]parity{}, busy: map[*types.Func]bool{}, summ2: map[sumKey]parity{}, busy2: map[sumKey]bool{}, assume: map[sumKey]parity{}, usedAssume: map[sumKey]bool{}}
-	a.r1()
-	a.r2()
-	a.r3()
+	c03model(c)
 	checkSegmentDistance(c, "C03.R4")
 	checkAxisDiscipline(c, "C03.R5", "geom", "op")
 	c.Floor("C03.R5", 2)
 	c.Floor("C03.R4", 2)
 	c.Floor("C03.R1", 8)
-	c.Floor("C03.R2", 5)
+	c.Floor("C03.R2", 9)
 	c.Floor("C03.R3", 3)
 }
-
-func (a *c03) isPointSlice(t types.Type) bool {
-	s, ok := t.Underlying().(*types.Slice)
-	return ok && types.Identical(s.Elem(), a.ptT)
-}
-
-// reachable repo functions (static callees) from a root, depth-limited.
-func (a *c03) reach(root *types.Func, depth int) []*types.Func {
-	seen := map[*types.Func]bool{}
-	var order []*types.Func
-	var visit func(f *types.Func, d int)
-	visit = func(f *types.Func, d int) {
-		if f == nil || seen[f] || a.c.P.Decl(f) == nil || d > depth {
-			return
-		}
-		seen[f] = true
-		order = append(order, f)
-		info := a.c.P.InfoOf(f)
-		ast.Inspect(a.c.P.Decl(f).Body, func(n ast.Node) bool {
-			if call, ok := n.(*ast.CallExpr); ok {
-				visit(callee(info, call), d+1)
-			}
-			return true
-		})
-	}
-	visit(root, 0)
-	return order
-}
-
-// vertexFold describes one fold over consecutive vertices of V inside fn.
-type vertexFold struct {
-	fn    *types.Func
-	v     types.Object
-	fams  []segFamily
-	loop  *Loop
-	first token.Pos
-	bad   string
-}
-
-// folds finds, in fn, every counting loop whose body combines V[i+c] and V[i+c+1]
-// for a []Point variable V, plus closing terms V[len-1], V[0] outside loops.
-func (a *c03) folds(fn *types.Func) []*vertexFold {
-	fd := a.c.P.Decl(fn)
-	info := a.c.P.InfoOf(fn)
-	sc := newFnScope(info, fd.Body)
-	type key struct {
-		v types.Object
-	}
-	byV := map[types.Object]*vertexFold{}
-	var order []types.Object
-	type acc struct {
-		loop *Loop
-		offs map[int64]bool
-	}
-	perLoop := map[types.Object]map[*Loop]*acc{}
-	// closing terms: statements outside V-indexed loops mentioning both V[len-1] and V[0]
-	var visitStmt func(st ast.Stmt)
-	noteAccess := func(ix *ast.IndexExpr) {
-		v := objOf(info, ix.X)
-		if v == nil || !a.isPointSlice(v.Type()) {
-			return
-		}
-		loops, _ := loopsAround(sc, fd.Body, ix)
-		for i := len(loops) - 1; i >= 0; i-- {
-			l := loops[i]
-			if off, ok := sc.idxOffset(ix.Index, l.Idx); ok {
-				if perLoop[v] == nil {
-					perLoop[v] = map[*Loop]*acc{}
-				}
-				// loops are re-created by loopsAround: key by statement
-				var found *acc
-				for kl, ac := range perLoop[v] {
-					if kl.Stmt == l.Stmt {
-						found = ac
-					}
-				}
-				if found == nil {
-					found = &acc{loop: l, offs: map[int64]bool{}}
-					perLoop[v][l] = found
-				}
-				found.offs[off] = true
-				return
-			}
-		}
-	}
-	ast.Inspect(fd.Body, func(n ast.Node) bool {
-		if ix, ok := n.(*ast.IndexExpr); ok {
-			noteAccess(ix)
-		}
-		return true
-	})
-	_ = visitStmt
-	for v, m := range perLoop {
-		for _, ac := range m {
-			if len(ac.offs) < 2 {
-				continue
-			}
-			if !a.hasFloatAccumulator(info, ac.loop) {
-				continue // a search/classification loop, not a fold (C02 covers those)
-			}
-			vf := byV[v]
-			if vf == nil {
-				vf = &vertexFold{fn: fn, v: v, first: ac.loop.Stmt.Pos()}
-				byV[v] = vf
-				order = append(order, v)
-			}
-			var offs []int64
-			for o := range ac.offs {
-				offs = append(offs, o)
-			}
-			sort.Slice(offs, func(i, j int) bool { return offs[i] < offs[j] })
-			if len(offs) != 2 || offs[1] != offs[0]+1 {
-				vf.bad = fmt.Sprintf("loop combines vertices at offsets %v, not two consecutive ones", offs)
-				continue
-			}
-			l := ac.loop
-			if !l.Lo.ok || !l.Hi.ok {
-				vf.bad = "loop bounds not affine"
-				continue
-			}
-			brk, cont, _ := earlyExits(l.Body)
-			if len(brk)+len(cont) > 0 {
-				// allowed only when the function is not a fold (e.g. search loops); flagged by caller if it matters
-				vf.bad = "fold loop has break/continue"
-			}
-			vf.loop = l
-			vf.fams = append(vf.fams, segFamily{A: l.Lo.plus(offs[0]), B: l.Hi.plus(offs[0]), Node: l.Stmt})
-		}
-	}
-	// closing terms
-	for _, v := range order {
-		vf := byV[v]
-		ast.Inspect(fd.Body, func(n ast.Node) bool {
-			var rhs []ast.Expr
-			switch s := n.(type) {
-			case *ast.AssignStmt:
-				rhs = s.Rhs
-			case *ast.ValueSpec:
-				rhs = s.Values
-			case *ast.IfStmt:
-				// calls like f(pt, V[len-1], V[0]) in a condition
-				if call, ok := unparen(s.Cond).(*ast.CallExpr); ok {
-					rhs = []ast.Expr{call}
-				}
-			default:
-				return true
-			}
-			for _, r := range rhs {
-				last, first := false, false
-				inLoop := false
-				ast.Inspect(r, func(m ast.Node) bool {
-					ix, ok := m.(*ast.IndexExpr)
-					if !ok || objOf(info, ix.X) != v {
-						return true
-					}
-					af := sc.aff(ix.Index)
-					if af.ok && af.Of != nil && af.K == -1 && objOf(info, af.Of) == v {
-						last = true
-					} else if af.ok && af.Of == nil && af.K == 0 {
-						first = true
-					} else {
-						inLoop = true
-					}
-					return true
-				})
-				if last && first && !inLoop {
-					// not a comparison like r[len-1] != r[0]
-					if b, ok := unparen(r).(*ast.BinaryExpr); ok && (b.Op == token.NEQ || b.Op == token.EQL) {
-						continue
-					}
-					vf.fams = append(vf.fams, segFamily{Wrap: true, Node: r})
-				}
-			}
-			return true
-		})
-	}
-	var out []*vertexFold
-	sort.Slice(order, func(i, j int) bool { return order[i].Pos() < order[j].Pos() })
-	for _, v := range order {
-		out = append(out, byV[v])
-	}
-	return out
-}
-
-// hasFloatAccumulator: the loop body updates a float variable from its own value
-// (x += …, x -= …, x = math.Min(x, …)).
-func (a *c03) hasFloatAccumulator(info *types.Info, l *Loop) bool {
-	found := false
-	ast.Inspect(l.Body, func(n ast.Node) bool {
-		as, ok := n.(*ast.AssignStmt)
-		if !ok || len(as.Lhs) != 1 {
-			return true
-		}
-		o := objOf(info, as.Lhs[0])
-		if o == nil || !isFloatT(o.Type()) {
-			return true
-		}
-		switch as.Tok {
-		case token.ADD_ASSIGN, token.SUB_ASSIGN:
-			found = true
-		case token.ASSIGN:
-			if len(as.Rhs) == 1 && mentions(info, as.Rhs[0], o) {
-				found = true
-			}
-		}
-		return true
-	})
-	return found
-}
-
-// shortGuard: the function returns before indexing V when len(V) is 0.
-func (a *c03) shortGuard(fn *types.Func, v types.Object) bool {
-	fd := a.c.P.Decl(fn)
-	info := a.c.P.InfoOf(fn)
-	for _, st := range fd.Body.List {
-		is, ok := st.(*ast.IfStmt)
-		if ok {
-			if b, ok := unparen(is.Cond).(*ast.BinaryExpr); ok {
-				la := lenArg(info, b.X)
-				k, kok := constInt(info, b.Y)
-				if la != nil && kok && objOf(info, la) == v {
-					empty := (b.Op == token.LSS && k >= 1) || (b.Op == token.LEQ && k >= 0) || (b.Op == token.EQL && k == 0)
-					if empty && len(is.Body.List) > 0 {
-						if _, isRet := is.Body.List[len(is.Body.List)-1].(*ast.ReturnStmt); isRet {
-							return true
-						}
-					}
-				}
-			}
-		}
-		// any indexing of v before the guard?
-		idx := false
-		ast.Inspect(st, func(n ast.Node) bool {
-			if ix, ok := n.(*ast.IndexExpr); ok && objOf(info, ix.X) == v {
-				idx = true
-			}
-			return true
-		})
-		if idx {
-			return false
-		}
-	}
-	return false
-}
-
-func (a *c03) r1() {
-	c := a.c
-	type root struct {
-		f    *types.Func
-		kind string // "cycle" (area), "chain" (length/distance), "centroid"
-	}
-	var roots []root
-	add := func(f *types.Func, kind, label string) {
-		if f == nil || c.P.Decl(f) == nil {
-			c.Unk("C03.R1", label, token.NoPos, "API anchor does not resolve")
-			return
-		}
-		roots = append(roots, root{f, kind})
-	}
-	add(c.P.Method("geom", "Polygon", "Area"), "cycle", "geom.(Polygon).Area")
-	add(c.P.Func("op", "Area"), "cycle", "op.Area")
-	add(c.P.Method("geom", "LineString", "Length"), "chain", "geom.(LineString).Length")
-	add(c.P.Method("geom", "LineString", "Distance"), "chain", "geom.(LineString).Distance")
-	add(c.P.Func("op", "Length"), "chain", "op.Length")
-	add(c.P.Method("geom", "Polygon", "Centroid"), "centroid", "geom.(Polygon).Centroid")
-	add(c.P.Method("geom", "MultiPolygon", "Centroid"), "centroid", "geom.(MultiPolygon).Centroid")
-	add(c.P.Func("op", "Centroid"), "centroid", "op.Centroid")
-	done := map[string]bool{}
-	for _, r := range roots {
-		found := 0
-		for _, f := range a.reach(r.f, 2) {
-			for _, vf := range a.folds(f) {
-				found++
-				cons := c.P.FuncName(f) + "#" + vf.v.Name()
-				if done[cons] {
-					continue
-				}
-				done[cons] = true
-				info := c.P.InfoOf(f)
-				vExpr := ast.Expr(&ast.Ident{Name: vf.v.Name()})
-				_ = vExpr
-				if vf.bad != "" {
-					c.Bad("C03.R1", cons, vf.first, "%s", vf.bad)
-					continue
-				}
-				msg := ""
-				// chain coverage
-				n := 0
-				for _, fam := range vf.fams {
-					if fam.Wrap {
-						continue
-					}
-					n++
-					if !(fam.A.ok && fam.A.Of == nil && fam.A.K == 0) {
-						msg = "first segment visited starts at vertex " + fam.A.String() + ", not 0"
-					} else if !(fam.B.ok && fam.B.Of != nil && fam.B.K == -1 && objOf(info, fam.B.Of) == vf.v) {
-						msg = "segments visited end at " + fam.B.String() + ", want len-1 (segments 0..len-2): a segment is dropped or indexed past the end"
-					}
-				}
-				if n > 1 && msg == "" {
-					// several loops over the same pairs are fine when they feed different accumulators (cx, cy)
-				}
-				wraps := hasWrap(vf.fams)
-				kind := r.kind
-				// a function that has a closing term is a cyclic sum whatever reaches it
-				if msg == "" {
-					switch {
-					case kind == "cycle" && wraps == 0:
-						msg = "shoelace sum has no closing term (last vertex → first vertex): the area depends on where the ring starts and on whether the closing vertex is repeated"
-					case kind == "chain" && wraps > 0:
-						msg = "an open line must not be closed: segment (last, first) is added"
-					}
-				}
-				if msg == "" && wraps > 0 {
-					if !a.shortGuard(f, vf.v) {
-						msg = "vertices are indexed before a len(" + vf.v.Name() + ")==0 guard: an empty ring panics"
-					} else if m := a.closingMatchesLoop(f, vf); m != "" {
-						msg = m
-					}
-				}
-				if msg != "" {
-					c.Bad("C03.R1", cons, vf.first, "%s", msg)
-				} else {
-					desc := "open chain 0..len-2"
-					if wraps > 0 {
-						desc = "full cycle (chain + closing term equal to the loop summand at (last, first)), guarded for empty rings"
-					}
-					c.OK("C03.R1", cons, vf.first, "%s", desc)
-				}
-			}
-		}
-		if found == 0 {
-			c.Bad("C03.R1", c.P.FuncName(r.f), c.P.Decl(r.f).Pos(), "no fold over consecutive vertices is reachable from this API")
-		}
-	}
-}
-
-// ---------------------------------------------------------------- polynomials
 
 type poly map[string]*big.Rat // monomial "px*qy" (sorted factors) → coefficient
 
@@ -448,70 +93,6 @@ func (p poly) mul(q poly) poly {
 	return out
 }
 func (p poly) equal(q poly) bool { return len(p.add(q, -1)) == 0 }
-func (p poly) swap() poly {
-	out := poly{}
-	for k, v := range p {
-		fs := strings.Split(k, "*")
-		for i, f := range fs {
-			switch {
-			case strings.HasPrefix(f, "p"):
-				fs[i] = "q" + f[1:]
-			case strings.HasPrefix(f, "q"):
-				fs[i] = "p" + f[1:]
-			}
-		}
-		sort.Strings(fs)
-		out[strings.Join(fs, "*")] = new(big.Rat).Set(v)
-	}
-	return out
-}
-
-// toPoly expands e; vertex(e) maps a vertex reference expression to "p"/"q".
-func toPoly(info *types.Info, e ast.Expr, vertex func(ast.Expr) string) poly {
-	e = unparen(e)
-	if tv, ok := info.Types[e]; ok && tv.Value != nil {
-		if r, ok := constRat(tv.Value); ok {
-			return polyConst(r)
-		}
-		return nil
-	}
-	switch x := e.(type) {
-	case *ast.SelectorExpr:
-		if v := vertex(x.X); v != "" && (x.Sel.Name == "X" || x.Sel.Name == "Y") {
-			return polyVar(v + strings.ToLower(x.Sel.Name))
-		}
-	case *ast.UnaryExpr:
-		if x.Op == token.SUB {
-			if p := toPoly(info, x.X, vertex); p != nil {
-				return poly{}.add(p, -1)
-			}
-		}
-		if x.Op == token.ADD {
-			return toPoly(info, x.X, vertex)
-		}
-	case *ast.BinaryExpr:
-		l, r := toPoly(info, x.X, vertex), toPoly(info, x.Y, vertex)
-		if l == nil || r == nil {
-			return nil
-		}
-		switch x.Op {
-		case token.ADD:
-			return l.add(r, 1)
-		case token.SUB:
-			return l.add(r, -1)
-		case token.MUL:
-			return l.mul(r)
-		case token.QUO:
-			if len(r) == 1 {
-				if c, ok := r[""]; ok && c.Sign() != 0 {
-					return l.mul(polyConst(new(big.Rat).Inv(c)))
-				}
-			}
-		}
-	}
-	return nil
-}
-
 func constRat(v constant.Value) (*big.Rat, bool) {
 	switch v.Kind() {
 	case constant.Int, constant.Float:
@@ -521,784 +102,10 @@ func constRat(v constant.Value) (*big.Rat, bool) {
 	return nil, false
 }
 
-// summandPoly extracts the polynomial of an expression over two vertices of v:
-// lo/hi identify which index expressions are p (first) and q (second).
-func (a *c03) summandPoly(info *types.Info, sc *fnScope, e ast.Expr, v types.Object, isP, isQ func(ast.Expr) bool) poly {
-	return toPoly(info, e, func(x ast.Expr) string {
-		ix, ok := unparen(x).(*ast.IndexExpr)
-		if !ok || objOf(info, ix.X) != v {
-			return ""
-		}
-		if isP(ix.Index) {
-			return "p"
-		}
-		if isQ(ix.Index) {
-			return "q"
-		}
-		return ""
-	})
-}
-
-// loopSummands returns, per accumulator variable, the polynomial added in the fold loop.
-func (a *c03) loopSummands(info *types.Info, sc *fnScope, l *Loop, v types.Object) map[types.Object]poly {
-	out := map[types.Object]poly{}
-	// offsets used
-	offs := map[int64]bool{}
-	ast.Inspect(l.Body, func(n ast.Node) bool {
-		if ix, ok := n.(*ast.IndexExpr); ok && objOf(info, ix.X) == v {
-			if o, ok := sc.idxOffset(ix.Index, l.Idx); ok {
-				offs[o] = true
-			}
-		}
-		return true
-	})
-	var lo int64 = 1 << 30
-	for o := range offs {
-		if o < lo {
-			lo = o
-		}
-	}
-	isP := func(e ast.Expr) bool { o, ok := sc.idxOffset(e, l.Idx); return ok && o == lo }
-	isQ := func(e ast.Expr) bool { o, ok := sc.idxOffset(e, l.Idx); return ok && o == lo+1 }
-	for _, st := range l.Body.List {
-		as, ok := st.(*ast.AssignStmt)
-		if !ok || len(as.Lhs) != 1 || len(as.Rhs) != 1 {
-			continue
-		}
-		accv := objOf(info, as.Lhs[0])
-		if accv == nil {
-			continue
-		}
-		var p poly
-		switch as.Tok {
-		case token.ADD_ASSIGN:
-			p = a.summandPoly(info, sc, as.Rhs[0], v, isP, isQ)
-		case token.SUB_ASSIGN:
-			if q := a.summandPoly(info, sc, as.Rhs[0], v, isP, isQ); q != nil {
-				p = poly{}.add(q, -1)
-			}
-		default:
-			continue
-		}
-		if p != nil {
-			out[accv] = p
-		}
-	}
-	return out
-}
-
-// closingMatchesLoop: the closing term assigned to accumulator S equals the
-// loop summand of S instantiated at (p=V[len-1], q=V[0]).
-func (a *c03) closingMatchesLoop(fn *types.Func, vf *vertexFold) string {
-	info := a.c.P.InfoOf(fn)
-	fd := a.c.P.Decl(fn)
-	sc := newFnScope(info, fd.Body)
-	if vf.loop == nil {
-		return ""
-	}
-	sums := a.loopSummands(info, sc, vf.loop, vf.v)
-	isLast := func(e ast.Expr) bool {
-		af := sc.aff(e)
-		return af.ok && af.Of != nil && af.K == -1 && objOf(info, af.Of) == vf.v
-	}
-	isFirst := func(e ast.Expr) bool { af := sc.aff(e); return af.ok && af.Of == nil && af.K == 0 }
-	checked := 0
-	msg := ""
-	ast.Inspect(fd.Body, func(n ast.Node) bool {
-		as, ok := n.(*ast.AssignStmt)
-		if !ok || len(as.Lhs) != 1 || len(as.Rhs) != 1 {
-			return true
-		}
-		isWrap := false
-		for _, fam := range vf.fams {
-			if fam.Wrap && fam.Node == ast.Node(as.Rhs[0]) {
-				isWrap = true
-			}
-		}
-		if !isWrap {
-			return true
-		}
-		accv := objOf(info, as.Lhs[0])
-		lp, ok := sums[accv]
-		if !ok {
-			msg = "closing term is assigned to `" + src(as.Lhs[0]) + "`, which the loop does not accumulate into"
-			return true
-		}
-		wp := a.summandPoly(info, sc, as.Rhs[0], vf.v, isLast, isFirst)
-		if wp == nil {
-			msg = "closing term `" + src(as.Rhs[0]) + "` is not a polynomial in the two vertices"
-			return true
-		}
-		if as.Tok == token.SUB_ASSIGN {
-			wp = poly{}.add(wp, -1)
-		}
-		checked++
-		if !wp.equal(lp) {
-			msg = "closing term `" + src(as.Rhs[0]) + "` is not the loop's summand evaluated at (last vertex, first vertex): the closing segment contributes with the wrong sign or formula"
-		}
-		return true
-	})
-	if msg == "" && checked == 0 {
-		return "closing term not recognised as an assignment to the accumulator"
-	}
-	return msg
-}
-
-// ---------------------------------------------------------------- R2 parity
-
-type parity int8
-
-const (
-	pUnset parity = iota
-	pZero
-	pEven
-	pOdd
-	pMixed
-	pEither // even on some paths, odd on others (a join, not arithmetic)
-)
-
-func (p parity) String() string {
-	return [...]string{"unset", "zero", "even", "odd", "mixed", "even-or-odd"}[p]
-}
-
-func parAdd(a, b parity) parity {
-	switch {
-	case a == pUnset || b == pUnset:
-		if a == pUnset {
-			return b
-		}
-		return a
-	case a == pZero:
-		return b
-	case b == pZero:
-		return a
-	case a == pMixed || b == pMixed || a == pEither || b == pEither:
-		return pMixed
-	case a == b:
-		return a
-	}
-	return pMixed
-}
-
-func parMul(a, b parity) parity {
-	switch {
-	case a == pZero || b == pZero:
-		return pZero
-	case a == pMixed || b == pMixed || a == pUnset || b == pUnset:
-		return pMixed
-	case a == pEither || b == pEither:
-		return pEither
-	case a == b:
-		return pEven
-	}
-	return pOdd
-}
-
-func parJoin(a, b parity) parity {
-	switch {
-	case a == b:
-		return a
-	case a == pUnset:
-		return b
-	case b == pUnset:
-		return a
-	case a == pZero:
-		return b
-	case b == pZero:
-		return a
-	case a == pMixed || b == pMixed:
-		return pMixed
-	}
-	return pEither
-}
-
-type parState map[types.Object]parity
-
-type parClient struct {
-	a        *c03
-	info     *types.Info
-	fn       *types.Func
-	sc       *fnScope
-	body     ast.Node
-	perRing  bool
-	ringLoop *ast.RangeStmt // in perRing mode: the loop over rings
-	results  []parity       // joined parity per result (fields joined for Point results)
-	notes    []string
-}
-
-func (c *parClient) Copy(s parState) parState {
-	o := parState{}
-	for k, v := range s {
-		o[k] = v
-	}
-	return o
-}
-func (c *parClient) Join(x, y parState) parState {
-	o := parState{}
-	for k, v := range x {
-		o[k] = parJoin(v, y[k])
-	}
-	for k, v := range y {
-		if _, ok := x[k]; !ok {
-			o[k] = v
-		}
-	}
-	return o
-}
-func (c *parClient) Equal(x, y parState) bool {
-	if len(x) != len(y) {
-		return false
-	}
-	for k, v := range x {
-		if y[k] != v {
-			return false
-		}
-	}
-	return true
-}
-func (c *parClient) Branch(cond ast.Expr, truth bool, s parState) parState { return s }
-func (c *parClient) TypeCase(sw *ast.TypeSwitchStmt, cc *ast.CaseClause, s parState) parState {
-	return s
-}
-
 func isFloatT(t types.Type) bool {
 	if t == nil {
 		return false
 	}
 	b, ok := t.Underlying().(*types.Basic)
 	return ok && b.Info()&types.IsFloat != 0
-}
-
-// crossRing: in perRing mode, is v declared outside the ring loop?
-func (c *parClient) crossRing(v types.Object, at ast.Node) bool {
-	if !c.perRing || c.ringLoop == nil {
-		return false
-	}
-	if !(c.ringLoop.Body.Pos() <= at.Pos() && at.End() <= c.ringLoop.Body.End()) {
-		return false // the accumulation is not inside the loop over rings
-	}
-	return !(c.ringLoop.Body.Pos() <= v.Pos() && v.Pos() <= c.ringLoop.Body.End())
-}
-
-func (c *parClient) expr(e ast.Expr, s parState) parity {
-	e = unparen(e)
-	if tv, ok := c.info.Types[e]; ok && tv.Value != nil {
-		if r, ok := constRat(tv.Value); ok && r.Sign() == 0 {
-			return pZero
-		}
-		return pEven
-	}
-	switch x := e.(type) {
-	case *ast.Ident:
-		if o := objOf(c.info, x); o != nil {
-			if p, ok := s[o]; ok && p != pUnset {
-				return p
-			}
-		}
-		return pEven
-	case *ast.UnaryExpr:
-		return c.expr(x.X, s)
-	case *ast.BinaryExpr:
-		switch x.Op {
-		case token.ADD, token.SUB:
-			return parAdd(c.expr(x.X, s), c.expr(x.Y, s))
-		case token.MUL, token.QUO:
-			return parMul(c.expr(x.X, s), c.expr(x.Y, s))
-		}
-		return pEven
-	case *ast.CallExpr:
-		f := callee(c.info, x)
-		if isFuncIn(f, "math", "Abs") && len(x.Args) == 1 {
-			p := c.expr(x.Args[0], s)
-			if p == pOdd || p == pEither {
-				return pEven
-			}
-			return p
-		}
-		if f != nil && c.a.c.P.Decl(f) != nil {
-			return c.a.summary(f, c.perRing)
-		}
-		// pure function of its arguments
-		p := pEven
-		for _, arg := range x.Args {
-			if isFloatT(c.info.TypeOf(arg)) {
-				if q := c.expr(arg, s); q == pOdd || q == pMixed {
-					p = pMixed
-				}
-			}
-		}
-		return p
-	case *ast.SelectorExpr:
-		// raw coordinate of a vertex outside a recognised summand
-		if _, ok := unparen(x.X).(*ast.IndexExpr); ok {
-			return pMixed
-		}
-		if o := objOf(c.info, x.X); o != nil {
-			if p, ok := s[o]; ok {
-				return p
-			}
-		}
-		return pEven
-	case *ast.CompositeLit:
-		p := pUnset
-		for _, el := range x.Elts {
-			v := el
-			if kv, ok := el.(*ast.KeyValueExpr); ok {
-				v = kv.Value
-			}
-			p = parJoin(p, c.expr(v, s))
-		}
-		if p == pUnset {
-			return pZero
-		}
-		return p
-	}
-	return pEven
-}
-
-// memberLoop: st lies in a loop that ranges over member geometries (elements that are
-// polygons, line strings or Geom values — not the rings of one polygon, whose signed
-// sum is meaningful) and the accumulator o is declared outside that loop.
-func (c *parClient) memberLoop(st ast.Node, o types.Object) string {
-	for _, anc := range enclosing(c.body, st) {
-		rs, ok := anc.(*ast.RangeStmt)
-		if !ok {
-			continue
-		}
-		if rs.Body.Pos() <= o.Pos() && o.Pos() <= rs.Body.End() {
-			continue
-		}
-		t := c.info.TypeOf(rs.X)
-		if t == nil {
-			continue
-		}
-		var elem types.Type
-		switch u := t.Underlying().(type) {
-		case *types.Slice:
-			elem = u.Elem()
-		case *types.Array:
-			elem = u.Elem()
-		}
-		if elem == nil {
-			continue
-		}
-		if n := named(elem); n != nil && n.Obj().Pkg() != nil && n.Obj().Pkg().Path() == modPath {
-			switch n.Obj().Name() {
-			case "Polygon", "MultiPolygon", "Geom", "Polygonal", "GeometryCollection":
-				return "members of " + types.TypeString(t, func(p *types.Package) string { return p.Name() })
-			}
-		}
-	}
-	return ""
-}
-
-// summandParity: the polynomial parity of a fold step over consecutive vertices.
-func (c *parClient) summandParity(l *Loop, v types.Object, e ast.Expr) (parity, bool) {
-	offs := map[int64]bool{}
-	ast.Inspect(e, func(n ast.Node) bool {
-		if ix, ok := n.(*ast.IndexExpr); ok && objOf(c.info, ix.X) == v {
-			if o, ok := c.sc.idxOffset(ix.Index, l.Idx); ok {
-				offs[o] = true
-			}
-		}
-		return true
-	})
-	if len(offs) != 2 {
-		return pMixed, false
-	}
-	var lo int64 = 1 << 30
-	for o := range offs {
-		if o < lo {
-			lo = o
-		}
-	}
-	isP := func(x ast.Expr) bool { o, ok := c.sc.idxOffset(x, l.Idx); return ok && o == lo }
-	isQ := func(x ast.Expr) bool { o, ok := c.sc.idxOffset(x, l.Idx); return ok && o == lo+1 }
-	p := c.a.summandPoly(c.info, c.sc, e, v, isP, isQ)
-	if p == nil {
-		return pMixed, false
-	}
-	sw := p.swap()
-	switch {
-	case len(p) == 0:
-		return pZero, true
-	case sw.equal(p):
-		return pEven, true
-	case sw.equal(poly{}.add(p, -1)):
-		return pOdd, true
-	}
-	return pMixed, true
-}
-
-// vertexListIn: the []Point variable indexed in e with a loop offset, and its loop.
-func (c *parClient) vertexUse(e ast.Expr) (types.Object, *Loop) {
-	var v types.Object
-	var loop *Loop
-	ast.Inspect(e, func(n ast.Node) bool {
-		ix, ok := n.(*ast.IndexExpr)
-		if !ok {
-			return true
-		}
-		o := objOf(c.info, ix.X)
-		if o == nil || !c.a.isPointSlice(o.Type()) {
-			return true
-		}
-		loops, _ := loopsAround(c.sc, c.body, ix)
-		for i := len(loops) - 1; i >= 0; i-- {
-			if _, ok := c.sc.idxOffset(ix.Index, loops[i].Idx); ok {
-				v, loop = o, loops[i]
-				return false
-			}
-		}
-		v = o
-		return true
-	})
-	return v, loop
-}
-
-func (c *parClient) rhsParity(e ast.Expr, s parState) parity {
-	if v, l := c.vertexUse(e); v != nil {
-		if l != nil {
-			if p, ok := c.summandParity(l, v, e); ok {
-				return p
-			}
-			return pMixed
-		}
-		// closing term V[len-1], V[0]: same polynomial test with p=last, q=first
-		isLast := func(x ast.Expr) bool {
-			af := c.sc.aff(x)
-			return af.ok && af.Of != nil && af.K == -1 && objOf(c.info, af.Of) == v
-		}
-		isFirst := func(x ast.Expr) bool { af := c.sc.aff(x); return af.ok && af.Of == nil && af.K == 0 }
-		if p := c.a.summandPoly(c.info, c.sc, e, v, isLast, isFirst); p != nil {
-			sw := p.swap()
-			switch {
-			case sw.equal(p):
-				return pEven
-			case sw.equal(poly{}.add(p, -1)):
-				return pOdd
-			}
-		}
-		return pMixed
-	}
-	return c.expr(e, s)
-}
-
-func (c *parClient) Stmt(n ast.Node, s parState) parState {
-	switch st := n.(type) {
-	case *ast.AssignStmt:
-		if len(st.Lhs) != len(st.Rhs) {
-			// tuple call: results even unless summarised otherwise
-			for _, l := range st.Lhs {
-				if o := objOf(c.info, l); o != nil && isFloatT(o.Type()) {
-					s[o] = pEven
-				}
-			}
-			return s
-		}
-		for i, l := range st.Lhs {
-			o := objOf(c.info, l)
-			if o == nil {
-				continue
-			}
-			t := o.Type()
-			if !isFloatT(t) && !types.Identical(t, c.a.ptT) {
-				continue
-			}
-			r := c.rhsParity(st.Rhs[i], s)
-			switch st.Tok {
-			case token.DEFINE, token.ASSIGN:
-				s[o] = r
-			case token.ADD_ASSIGN, token.SUB_ASSIGN:
-				if ml := c.memberLoop(st, o); ml != "" && (r == pOdd || r == pMixed || r == pEither) {
-					s[o] = pMixed
-					c.notes = append(c.notes, fmt.Sprintf("`%s` adds a value that changes sign with the winding of one member (%s) into `%s`, which accumulates across the %s: members wound in opposite directions cancel", src(st), r, o.Name(), ml))
-				} else if c.crossRing(o, st) && (r == pOdd || r == pMixed) {
-					s[o] = pMixed
-					c.notes = append(c.notes, fmt.Sprintf("`%s` adds a value that changes sign with the winding of the current ring (%s) into `%s`, which accumulates across rings", src(st), r, o.Name()))
-				} else {
-					s[o] = parAdd(s[o], r)
-				}
-			case token.MUL_ASSIGN, token.QUO_ASSIGN:
-				s[o] = parMul(s[o], r)
-			}
-		}
-	case *ast.DeclStmt:
-		if gd, ok := st.Decl.(*ast.GenDecl); ok {
-			for _, sp := range gd.Specs {
-				if vs, ok := sp.(*ast.ValueSpec); ok {
-					for i, nm := range vs.Names {
-						o := c.info.Defs[nm]
-						if o == nil || !isFloatT(o.Type()) {
-							continue
-						}
-						if i < len(vs.Values) {
-							s[o] = c.rhsParity(vs.Values[i], s)
-						} else {
-							s[o] = pZero
-						}
-					}
-				}
-			}
-		}
-	}
-	return s
-}
-
-func (c *parClient) Return(r *ast.ReturnStmt, s parState) {
-	if r == nil {
-		return
-	}
-	for i, e := range r.Results {
-		t := c.info.TypeOf(e)
-		if !isFloatT(t) && !types.Identical(t, c.a.ptT) {
-			continue
-		}
-		for len(c.results) <= i {
-			c.results = append(c.results, pUnset)
-		}
-		c.results[i] = parJoin(c.results[i], c.expr(e, s))
-	}
-}
-
-// analyse computes the parity of fn's float/Point results.
-func (a *c03) analyse(fn *types.Func, perRing bool) *parClient {
-	fd := a.c.P.Decl(fn)
-	info := a.c.P.InfoOf(fn)
-	cl := &parClient{a: a, info: info, fn: fn, sc: newFnScope(info, fd.Body), body: fd.Body, perRing: perRing}
-	if perRing {
-		ast.Inspect(fd.Body, func(n ast.Node) bool {
-			if rs, ok := n.(*ast.RangeStmt); ok && rs.Value != nil {
-				if o := objOf(info, rs.Value); o != nil && a.isPointSlice(o.Type()) && cl.ringLoop == nil {
-					cl.ringLoop = rs
-				}
-			}
-			return true
-		})
-	}
-	fl := &Flow[parState]{C: cl, Info: info}
-	fl.Run(fd.Body, parState{})
-	if len(fl.Unsupported) > 0 {
-		cl.notes = append(cl.notes, "unsupported control flow")
-		cl.results = []parity{pMixed}
-	}
-	return cl
-}
-
-type sumKey struct {
-	fn      *types.Func
-	perRing bool
-}
-
-// summary: parity of fn's float/Point results.  In perRing mode the callee is analysed
-// per ring as well (a helper that sums orientation-odd ring quantities is not invariant
-// under the reversal of one ring even if it is under the reversal of all).  Recursive
-// functions are solved by iteration from "zero" (the recursive call contributes nothing)
-// until the assumed and the computed parity agree.
-func (a *c03) summary(fn *types.Func, perRing bool) parity {
-	fn = fn.Origin()
-	key := sumKey{fn, perRing}
-	if p, ok := a.summ2[key]; ok {
-		return p
-	}
-	if a.busy2[key] {
-		a.usedAssume[key] = true
-		if p, ok := a.assume[key]; ok {
-			return p
-		}
-		return pZero
-	}
-	a.busy2[key] = true
-	a.assume[key] = pZero
-	p := pUnset
-	for iter := 0; iter < 5; iter++ {
-		a.usedAssume[key] = false
-		cl := a.analyse(fn, perRing)
-		p = pUnset
-		for _, r := range cl.results {
-			p = parJoin(p, r)
-		}
-		if p == pUnset {
-			p = pEven
-		}
-		if !a.usedAssume[key] || p == a.assume[key] {
-			break
-		}
-		a.assume[key] = p
-	}
-	a.busy2[key] = false
-	a.summ2[key] = p
-	return p
-}
-
-func (a *c03) r2() {
-	c := a.c
-	type ob struct {
-		f       *types.Func
-		label   string
-		perRing bool
-		what    string
-	}
-	obs := []ob{
-		{c.P.Method("geom", "Polygon", "Area"), "geom.(Polygon).Area", false, "the area"},
-		{c.P.Method("geom", "MultiPolygon", "Area"), "geom.(MultiPolygon).Area", false, "the area"},
-		{c.P.Func("op", "Area"), "op.Area", false, "the area"},
-		{c.P.Method("geom", "Polygon", "Centroid"), "geom.(Polygon).Centroid", false, "the centroid"},
-		{c.P.Method("geom", "MultiPolygon", "Centroid"), "geom.(MultiPolygon).Centroid", true, "the centroid"},
-		{c.P.Func("op", "Centroid"), "op.Centroid", false, "the centroid"},
-	}
-	for _, o := range obs {
-		if o.f == nil || c.P.Decl(o.f) == nil {
-			c.Unk("C03.R2", o.label, token.NoPos, "API anchor does not resolve")
-			continue
-		}
-		cl := a.analyse(o.f, o.perRing)
-		p := pUnset
-		for _, r := range cl.results {
-			p = parJoin(p, r)
-		}
-		pos := c.P.Decl(o.f).Pos()
-		scope := "all rings are reversed together"
-		if o.perRing {
-			scope = "any single ring is reversed"
-		}
-		switch p {
-		case pEven, pZero:
-			c.OK("C03.R2", o.label, pos, "result is even: unchanged when %s", scope)
-		case pOdd, pEither:
-			c.Bad("C03.R2", o.label, pos, "%s changes sign when %s (result is odd in the ring orientation on some path)", o.what, scope)
-		case pMixed:
-			extra := ""
-			if len(cl.notes) > 0 {
-				extra = ": " + cl.notes[0]
-			}
-			c.Bad("C03.R2", o.label, pos, "%s is not invariant when %s (orientation-odd and orientation-even quantities are combined)%s", o.what, scope, extra)
-		default:
-			c.Unk("C03.R2", o.label, pos, "no float result analysed")
-		}
-	}
-}
-
-// ---------------------------------------------------------------- R3
-
-func (a *c03) r3() {
-	c := a.c
-	type agg struct {
-		typ, meth string
-		kind      string // "sum" | "min"
-	}
-	for _, g := range []agg{{"MultiPolygon", "Area", "sum"}, {"MultiLineString", "Length", "sum"}, {"MultiLineString", "Distance", "min"}} {
-		m := c.P.Method("geom", g.typ, g.meth)
-		fd := c.P.Decl(m)
-		label := "geom.(" + g.typ + ")." + g.meth
-		if fd == nil {
-			c.Unk("C03.R3", label, token.NoPos, "API anchor does not resolve")
-			continue
-		}
-		info := c.P.InfoOf(m)
-		recv := receiverVar(info, fd)
-		sc := newFnScope(info, fd.Body)
-		msg := ""
-		var acc types.Object
-		folded := false
-		for _, st := range fd.Body.List {
-			switch s := st.(type) {
-			case *ast.AssignStmt:
-				if len(s.Lhs) == 1 && len(s.Rhs) == 1 && s.Tok == token.DEFINE {
-					acc = objOf(info, s.Lhs[0])
-					init := unparen(s.Rhs[0])
-					if g.kind == "sum" {
-						if v := constOf(info, init); v == nil || constant.Sign(v) != 0 {
-							msg = "sum does not start at 0"
-						}
-					} else {
-						call, ok := init.(*ast.CallExpr)
-						k := int64(0)
-						if ok && len(call.Args) == 1 {
-							k, _ = constInt(info, call.Args[0])
-						}
-						if !ok || !isFuncIn(callee(info, call), "math", "Inf") || k <= 0 {
-							msg = "minimum does not start at +Inf (an empty or far-away geometry would report a wrong distance)"
-						}
-					}
-				}
-			case *ast.RangeStmt, *ast.ForStmt:
-				l := sc.loopOf(st)
-				if l == nil || !(l.Lo.K == 0 && l.Lo.Of == nil && l.Hi.K == 0 && l.Hi.Of != nil && objOf(info, l.Hi.Of) == recv) {
-					msg = "loop does not cover every member"
-					continue
-				}
-				brk, cont, rets := earlyExits(l.Body)
-				if len(brk)+len(cont)+len(rets) > 0 {
-					msg = "member loop has an early exit"
-				}
-				// the member's measure: elem.<same method>(args…) possibly via a local
-				measured := map[types.Object]bool{}
-				isMeasure := func(e ast.Expr) bool {
-					e = unparen(e)
-					if o := objOf(info, e); o != nil && measured[o] {
-						return true
-					}
-					call, ok := e.(*ast.CallExpr)
-					if !ok {
-						return false
-					}
-					sel, ok := unparen(call.Fun).(*ast.SelectorExpr)
-					if !ok || sel.Sel.Name != g.meth {
-						return false
-					}
-					x := unparen(sel.X)
-					return (l.Val != nil && objOf(info, x) == l.Val) || isRecvElem(info, x, recv, l.Idx)
-				}
-				for _, bs := range l.Body.List {
-					as, ok := bs.(*ast.AssignStmt)
-					if !ok || len(as.Lhs) != 1 || len(as.Rhs) != 1 {
-						continue
-					}
-					lhs := objOf(info, as.Lhs[0])
-					if lhs != acc {
-						if isMeasure(as.Rhs[0]) && lhs != nil {
-							measured[lhs] = true
-						}
-						continue
-					}
-					if g.kind == "sum" {
-						if as.Tok == token.ADD_ASSIGN && isMeasure(as.Rhs[0]) {
-							folded = true
-						} else {
-							msg = "accumulator updated by `" + src(as) + "`, not by adding the member's " + g.meth
-						}
-					} else {
-						call, ok := unparen(as.Rhs[0]).(*ast.CallExpr)
-						if ok && isFuncIn(callee(info, call), "math", "Min") && len(call.Args) == 2 &&
-							((objOf(info, call.Args[0]) == acc && isMeasure(call.Args[1])) || (objOf(info, call.Args[1]) == acc && isMeasure(call.Args[0]))) {
-							folded = true
-						} else {
-							msg = "accumulator updated by `" + src(as) + "`, not by min with the member's distance"
-						}
-					}
-				}
-			case *ast.ReturnStmt:
-				if len(s.Results) != 1 {
-					msg = "unexpected return"
-					continue
-				}
-				e := unparen(s.Results[0])
-				if call, ok := e.(*ast.CallExpr); ok && isFuncIn(callee(info, call), "math", "Abs") && len(call.Args) == 1 {
-					e = unparen(call.Args[0])
-				}
-				if objOf(info, e) != acc || acc == nil {
-					msg = "returns `" + src(s.Results[0]) + "`, not the accumulator"
-				}
-			}
-		}
-		if msg == "" && !folded {
-			msg = "no fold of the members' " + g.meth + " found"
-		}
-		if msg != "" {
-			c.Bad("C03.R3", label, fd.Pos(), "%s", msg)
-		} else {
-			c.OK("C03.R3", label, fd.Pos(), "%s over all members", g.kind)
-		}
-	}
 }
